@@ -17,14 +17,15 @@ def _shrink_task(task: dict) -> dict:
     scenario = task["scenario"]
     sig = task["signature"]
     evals = 0
-    cap = task.get("cap", 1500)
+    cap = getattr(mod, "SHRINK_CAP", 1500)
+    deadline = core.time.monotonic() + getattr(mod, "SHRINK_WALL_S", 120)
     improved = True
     same = getattr(mod, "same_signature", lambda a, b: a == b)
-    while improved and evals < cap:
+    while improved and evals < cap and core.time.monotonic() < deadline:
         improved = False
         for cand in mod.candidates(scenario):
             evals += 1
-            if evals >= cap:
+            if evals >= cap or core.time.monotonic() >= deadline:
                 break
             try:
                 got = mod.evaluate(cand)
@@ -77,6 +78,10 @@ def main(mod, argv=None) -> int:
     ap.add_argument("--max-tasks", type=int, default=None)
     args = ap.parse_args(argv)
     timer = core.Timer()
+    import faulthandler
+    import signal
+
+    faulthandler.register(signal.SIGUSR1, all_threads=True)
     try:
         core.import_kio()
         if args.replay:
@@ -181,7 +186,7 @@ def _run(mod, args, timer) -> int:
             known_hits[entry["id"]] = known_hits.get(entry["id"], 0) + len(by_sig[sig])
             continue
         n_viol += len(by_sig[sig])
-        if reported >= 8:
+        if reported >= getattr(mod, "MAX_REPORTS", 8):
             continue
         reported += 1
         scen, final_sig, evals = shrink(mod.__name__, v["scenario"], v["signature"])
